@@ -33,6 +33,9 @@ def cfg_lines(g, entries, hosts):
         out.append("route find %s" % hx(h))
     return out
 
+def conc_line(hosts, ms):
+    return "route conc %d %s # spec=C18 eq ok # spec=C09 eq ok" % (ms, " ".join(hx(h) for h in hosts if h))
+
 def generate(seed, tier):
     g = Gen(seed)
     lines = []
@@ -58,6 +61,14 @@ def generate(seed, tier):
         for _ in range(12):
             lines += one
         g.count("config_rebuilt_12_times")
+    # one table, several listeners looking hosts up at the same time
+    for _ in range(3 if tier == "quick" else 30):
+        entries = [("udp", ["*.example.com", "test1"], "10.9.0.1"), ("tcp", ["a.*", "*.b.com"], "10.9.1.1:6000"), ("tls", ["default"], "10.9.2.1"), ("udp", ["x.a.com"], "10.9.3.1")]
+        g.r.shuffle(entries)
+        hs = ["a.example.com", "a.org", "q.example.com", "z.b.com", "nowhere.test", "x.a.com", "test1", "b.a"]
+        lines += cfg_lines(g, entries, hs)
+        lines.append(conc_line(hs, 150 if tier == "quick" else 600))
+        g.count("concurrent_lookup_runs")
     maxn = 3 if tier == "quick" else 4
     pats = PATTERNS[:8] if tier == "quick" else PATTERNS
     n = 0
